@@ -66,6 +66,19 @@ def main():
                 items[f"g{g}.layer.{v}"] = out(getattr(LayerRule().based_on(arch).layers_that().are_named("A"), v)().access_layers_that().are_named(["B", "C"]), ev)
                 items[f"g{g}.layer.{v}.exc"] = out(getattr(LayerRule().based_on(arch).layers_that().are_named("C"), v)().be_accessed_by_layers_except_layers_that().are_named("A"), ev)
 
+    # modules whose names differ only in case / zero padding / one non-word character: report lines that compare equal
+    # under a lossy sort key must still come in one fixed order
+    twins = ["r", "r.b", "r.x", "r.y"] + [f"r.x.{n}" for n in ("Models", "models", "MODELS", "mOdels")] + [f"r.y.{n}" for n in ("m1", "m01", "m001", "M1", "a·b", "a_b", "ab")]
+    timps = [(t, "r.b") for t in twins[4:]] + [("r.b", t) for t in twins[4:]]
+    evt = EvaluableArchitectureGraph(NetworkxGraph(list(twins), [AbsoluteImport(a, b) for a, b in timps]))
+    for v, d in (("should_not", "import_modules_that"), ("should_not", "be_imported_by_modules_that"), ("should_only", "import_modules_except_modules_that")):
+        for subj in (["r.x"], ["r.y"], ["r.x", "r.y"], twins[4:8], twins[8:]):
+            items[f"twins.{v}.{d}.{len(subj)}.{subj[0]}"] = out(getattr(getattr(Rule().modules_that().are_named(subj), v)(), d)().are_named("r.b"), evt)
+    items["twins.any"] = out(Rule().modules_that().are_sub_modules_of(["r.x", "r.y"]).should_not().import_anything(), evt)
+    arch_t = LayeredArchitecture().layer("X").containing_modules(["r.x"]).layer("Y").containing_modules(["r.y"]).layer("B").containing_modules(["r.b"])
+    items["twins.layer"] = out(LayerRule().based_on(arch_t).layers_that().are_named("B").should_not().access_layers_that().are_named(["X", "Y"]), evt)
+    items["twins.layer.be"] = out(LayerRule().based_on(arch_t).layers_that().are_named("B").should_not().be_accessed_by_layers_that().are_named(["X", "Y"]), evt)
+
     work = tempfile.mkdtemp(prefix="PTA-HS-", dir=boot.scratch_root())
     os.environ["PTA_SCRATCH"] = work
     try:
